@@ -39,6 +39,10 @@ MUST_REFUTE = {
     # base-class aliases (the own override captures them)
     "C05_OptGen_Buggy_CollectByName": "ShippedUsageFine",
     "C05_OptGen_Buggy_CollectByName_static": "HandlersPreserved",
+    # round 4: the class-hierarchy fallback (rec_fallback) calls the handler found through
+    # the node's MRO without the keyword arguments
+    "C05_Gen_Buggy_FallbackDropsKw": "Transparent",
+    "C05_OptGen_Buggy_FallbackDropsKw": "Explained",
     "C05_Gen_real_types": "NotSharedTypes",        # Dev_CompositeKeyPyEq (finding F1)
     "C05_OptGen_findings": "PlainlyAccepted",      # the optimizer's named deviations
 }
@@ -151,18 +155,21 @@ def _tlaps(out, wd):
 
 
 def _model_stage(tier, seed, out):
-    gen_cfgs = {"quick": [("C05_Gen", "C05_Gen_quick", {})],
+    gen_cfgs = {"quick": [("C05_Gen", "C05_Gen_quick", {}), ("C05_Gen", "C05_Gen_fb", {})],
                 "thorough": [("C05_Gen", "C05_Gen_thorough", {}),
+                             ("C05_Gen", "C05_Gen_fb", {}),
                              ("C05_Gen", "C05_Gen_thoroughA", {}),
                              ("C05_Gen", "C05_Gen_thorough3", {}),
                              ("C05_Gen", "C05_Gen_sim",
                               {"simulate": "num=400", "depth": 8, "seed": seed})]}[tier]
     opt_cfgs = {"quick": [("C05_OptGen", "C05_OptGen_quick1", {}),
                           ("C05_OptGen", "C05_OptGen_quick2", {}),
-                          ("C05_OptGen", "C05_OptGen_alias_quick", {})],
+                          ("C05_OptGen", "C05_OptGen_alias_quick", {}),
+                          ("C05_OptGen", "C05_OptGen_fb", {})],
                 "thorough": [("C05_OptGen", "C05_OptGen_thorough1", {}),
                              ("C05_OptGen", "C05_OptGen_thorough2", {}),
-                             ("C05_OptGen", "C05_OptGen_alias_thorough", {})]}[tier]
+                             ("C05_OptGen", "C05_OptGen_alias_thorough", {}),
+                             ("C05_OptGen", "C05_OptGen_fb", {})]}[tier]
     ctl = ([("C05_Gen", c, {}) for c in MUST_HOLD]
            + [("C05_OptGen" if c.startswith("C05_OptGen") else "C05_Gen", c, {})
               for c in MUST_REFUTE])
